@@ -175,6 +175,17 @@ def printfS : Bytes → Bytes → Option Bytes
   | 92 :: 92 :: rest, a => (printfS rest a).map (BSL :: ·)         -- \\
   | c :: rest, a => if c = 37 ∨ c = 92 then none else (printfS rest a).map (c :: ·)
 
+/-- One place where a script re-quotes a value for `eval` (raw script text; see Gen/C20.lean):
+    `case VALUE in (guard) lhs=pre$(printf fmt "$var" | sed "$escape");; (*) lhs=plain;; esac`. -/
+structure QuoteSite where
+  line : Nat
+  guard : Bytes      -- `case` pattern that selects the escaping path
+  pre : Bytes        -- shell word(s) in front of the command substitution, e.g. `" '"`
+  fmt : Bytes        -- printf format word, e.g. `'%sX\n'`
+  plain : Bytes      -- the word used when the guard does not match, e.g. `" '$1'"`
+  var : Bytes        -- name of the variable that holds the value
+  deriving DecidableEq, Repr, Inhabited
+
 /-! ## (ii) mini-sed -/
 
 /-- A one-byte matcher: a literal is a singleton set. -/
